@@ -3,4 +3,4 @@ From F8 Require Import Base.Conv C24.Sched C24.Spec_C24.
 Extraction Language OCaml.
 Extraction "../ocaml/gen/C24/model.ml" keep_types
   decode_dow create_schedule test_o run_o toffset errorticks wday_of billion
-  spec_dow c24_ok_dow c24_ok_run c24_ok_cfg active.
+  spec_dow c24_ok_dow c24_ok_run c24_ok_cfg c24_ok_cfgrun configured_run active.
